@@ -265,5 +265,19 @@ size_t strlcpy(char *dst, const char *src, size_t size);
 // as CURL_MAX_HTTP_HEADER
 #define HTP_MAX_HEADER_FOLDED 102400
 
+#ifdef OISF_LIBHTP_VERIF
+// Verification trace points: compiled in only for the verification harness.
+#ifdef	__cplusplus
+extern "C" {
+#endif
+extern void (*htp_verif_trace_fn)(int site, const void *connp, const void *a, long b);
+#ifdef	__cplusplus
+}
+#endif
+#define HTP_VERIF_TRACE(site, connp, a, b) do { if (htp_verif_trace_fn) htp_verif_trace_fn((site), (connp), (a), (b)); } while (0)
+#else
+#define HTP_VERIF_TRACE(site, connp, a, b) do { } while (0)
+#endif
+
 #endif	/* _HTP_PRIVATE_H */
 
